@@ -43,10 +43,18 @@ TREES = {
     'big': {'big1': F(2 ** 31, sparse=True), 'big2': F(2 ** 32 + 1, sparse=True), 'big3': F(2 ** 40, sparse=True),
             'small.txt': F(3), 'big4.txt': F(2 ** 40, sparse=True)},
 }
+# exactly 2^k matching entries (internal batches and buffers have power-of-two sizes)
+for _k in (10, 11, 12, 13):
+    TREES['pow%d' % _k] = {'f%05d' % i: F(1 + i % 5) for i in range(2 ** _k)}
 ARGS = ['size', 'hardlinks', 'uid', 'line_count', 'length(name)']
 WHERES = [('none', None, lambda e: True), ('all', 'size gte 0', lambda e: True),
           ('files', 'is_file = true', lambda e: e['file']), ('some', 'name like %.txt', lambda e: e['name'].endswith('.txt')),
-          ('nomatch', 'size gt 9000000000000000', lambda e: False), ('large', 'size gt 1000000', lambda e: e['size'] > 1000000)]
+          ('nomatch', 'size gt 9000000000000000', lambda e: False), ('large', 'size gt 1000000', lambda e: e['size'] > 1000000),
+          # the aggregate's argument also occurs in an OR arm that is skipped for some accepted rows and evaluated for rejected ones
+          ('orfn', "name = 'a.txt' or length(name) = 2", lambda e: e['name'] == 'a.txt' or len(e['name']) == 2),
+          ('fnor', "length(name) = 1 or name like '%.txt'", lambda e: len(e['name']) == 1 or e['name'].endswith('.txt')),
+          ('orsz', "name like '%.rs' or size = 2 or size + 1 = 2", lambda e: e['name'].endswith('.rs') or e['size'] in (1, 2))]
+SHORT_CIRCUIT = ('orfn', 'fnor', 'orsz')
 
 
 def subsets(tier):
@@ -83,6 +91,15 @@ def groups(tier, seed):
         for arg in ARGS:
             for wname, wtext, _ in WHERES:
                 if arg == 'line_count' and (wname not in ('files', 'some', 'nomatch') or tname in ('big', 'close')):
+                    continue
+                if wname in SHORT_CIRCUIT and arg not in ('length(name)', 'size'):
+                    continue
+                if tname.startswith('pow'):
+                    # expensive rows: one or two queries per tree (the subject needs seconds for thousands of buffered rows)
+                    if arg != 'size' or wname not in ('none', 'files') or (tname == 'pow13' and tier == 'quick'):
+                        continue
+                    sets_ = [['count', 'min', 'max']] if tier == 'quick' or wname == 'files' else [['count', 'min', 'max'], FUNCS[:5]]
+                    yield {'tree': tname, 'arg': arg, 'where': wname, 'cases': [{'funcs': ss, 'style': 0} for ss in sets_]}
                     continue
                 cases = []
                 for i, ss in enumerate(subsets(tier)):
